@@ -59,11 +59,15 @@ impl LocalStorage {
 impl Storage for LocalStorage {
     async fn put(&self, key: &str, bytes: &[u8]) -> Result<(), StorageError> {
         let path = self.key_path(key)?;
+        #[cfg(folo_verif)]
+        crate::verif_hook::point("put-enter");
         if let Some(parent) = path.parent() {
             tokio::fs::create_dir_all(parent).await.map_err(|error| {
                 CreateLocalParentDirectoriesError::caused_by(parent.to_path_buf(), error)
             })?;
         }
+        #[cfg(folo_verif)]
+        crate::verif_hook::point("after-mkdir");
         // Write-once: refuse to replace an existing object. This existence check
         // races with a concurrent writer of the same key, but the atomic rename
         // in `write_atomic` guarantees the published object is always complete,
@@ -82,26 +86,36 @@ impl Storage for LocalStorage {
                 );
             }
         }
+        #[cfg(folo_verif)]
+        crate::verif_hook::point("after-exists-check");
         let compressed = cbh_codec::compress(bytes);
         write_atomic(&path, &compressed)
             .await
             .map_err(|error| WriteLocalObjectError::caused_by(path, error))?;
+        #[cfg(folo_verif)]
+        crate::verif_hook::point("put-return");
         Ok(())
     }
 
     async fn put_overwrite(&self, key: &str, bytes: &[u8]) -> Result<(), StorageError> {
         let path = self.key_path(key)?;
+        #[cfg(folo_verif)]
+        crate::verif_hook::point("put-enter");
         if let Some(parent) = path.parent() {
             tokio::fs::create_dir_all(parent).await.map_err(|error| {
                 CreateLocalParentDirectoriesError::caused_by(parent.to_path_buf(), error)
             })?;
         }
+        #[cfg(folo_verif)]
+        crate::verif_hook::point("after-mkdir");
         // The atomic rename replaces any existing object in full, the deliberate
         // escape hatch from the write-once contract.
         let compressed = cbh_codec::compress(bytes);
         write_atomic(&path, &compressed)
             .await
             .map_err(|error| WriteLocalObjectError::caused_by(path, error))?;
+        #[cfg(folo_verif)]
+        crate::verif_hook::point("put-return");
         Ok(())
     }
 
@@ -243,12 +257,18 @@ async fn write_atomic(target: &Path, bytes: &[u8]) -> io::Result<()> {
     // rename a file that is still open.
     let written = async {
         let mut file = tokio::fs::File::create(&temp).await?;
+        #[cfg(folo_verif)]
+        crate::verif_hook::point("after-temp-create");
         file.write_all(bytes).await?;
+        #[cfg(folo_verif)]
+        crate::verif_hook::point("after-temp-write");
         // Tokio's `File` does not flush its buffer on drop, so flush explicitly
         // to guarantee every byte is durable before the rename publishes it.
         file.flush().await
     }
     .await;
+    #[cfg(folo_verif)]
+    crate::verif_hook::point("after-flush");
     if let Err(error) = written {
         // Best-effort: removing the orphaned temp file cannot recover the
         // original error we are about to return, so its own result is ignored.
@@ -259,6 +279,8 @@ async fn write_atomic(target: &Path, bytes: &[u8]) -> io::Result<()> {
         let _cleanup = tokio::fs::remove_file(&temp).await;
         return Err(error);
     }
+    #[cfg(folo_verif)]
+    crate::verif_hook::point("after-rename");
     Ok(())
 }
 
